@@ -215,8 +215,10 @@ def printStatement : Nat → P Stmt
     consume .print
     let start := (← get).prev
     let (args, ended) ← printLoop n []
-    if ended then setDidEnd true
-    else if (← atStatementEnd) then setDidEnd true
+    -- parser.go:417 `if p.atStatementEnd() || ended`: the call comes first and is made even when
+    -- `ended` holds, so a second `;` is consumed too (`print ; ; x` parses)
+    let atEnd ← atStatementEnd
+    if atEnd || ended then setDidEnd true
     return .print start args
 
 /-- the argument loop; the flag says that the loop ended because the statement ended -/
@@ -286,7 +288,7 @@ def prefixFn : Nat → PrefixKind → P Expr
       let op := (← get).prev
       let e ← expressionWithPrec n Prec.unary
       if (op.tag == .plusPlus || op.tag == .minusMinus) && !assignable e then
-        fail op.pos "invalid increment target"
+        fail e.token.pos "invalid increment target"      -- parser.go:743-746: position of the operand
       else return .unary e op false
     | .match_ =>
       consume .match_
@@ -368,10 +370,11 @@ def infixFn : Nat → InfixKind → Expr → P Expr
       let args ← exprList n .rparen []
       return .call left args
     | .postfixOp =>
+      -- parser.go:757-759: checked before the operator is consumed, at the operand's position
+      if !assignable left then fail left.token.pos "invalid increment target" else
       advance
       let op := (← get).prev
-      if !assignable left then fail op.pos "invalid increment target"
-      else return .unary left op true
+      return .unary left op true
     | .binary =>
       advance
       let op := (← get).prev
